@@ -46,6 +46,7 @@ func main() {
 		"non-trivial: the history changes state at least once / the sorted list has ≥ 2 elements / the list written or filtered is non-empty; " +
 		"distinct = distinct request lines"
 
+	probeSetString32(rep) // before any G case runs: the oracle and the model line follow the tree
 	var cases []*kase
 	if env.Replay != "" {
 		cases = loadReplay(env.Replay)
@@ -298,6 +299,19 @@ func runCase(c *kase) {
 			dinit = "cap:0"
 		}
 		c.dl = []string{"N " + f[1] + " " + dinit + " " + f[3]}
+	case 'G':
+		t, init, ops := f[1][0], f[2], splitOps(f[3])
+		c.impl = execG(t, init, ops)
+		c.spec = specG(t, ops)
+		dinit := init
+		if init == "def" {
+			dinit = "cap:0"
+		}
+		dt := f[1]
+		if t == 'd' && !quirkSetString32 {
+			dt = "D" // the model of the repaired DoubleList.SetString
+		}
+		c.dl = []string{"G " + dt + " " + dinit + " " + f[3]}
 	case 'H':
 		ops := splitOps(f[1])
 		c.impl = execH(ops)
@@ -514,6 +528,41 @@ func judge(c *kase, rep *vh.Report) {
 				fmt.Sprintf("op #%d %s: implementation %s, model %s", d, vh.Clip(at(ops, d), 60), vh.Clip(at(c.impl, d), 60), vh.Clip(at(model, d), 60)),
 				replayOf(c, map[string]interface{}{"op_index": d}))
 		}
+	case 'G':
+		t, ops := f[1][0], splitOps(f[3])
+		rep.Case(c.line, len(ops) > 0)
+		rep.Count("G.type." + typeNames[t])
+		gName := map[string]string{"aS": "AddString", "aF": "AddFloat", "aD": "AddDouble", "sS": "SetString", "sF": "SetFloat", "sD": "SetDouble",
+			"gS": "GetString", "gF": "GetFloat", "gD": "GetDouble", "t": "elements"}
+		for i, op := range ops {
+			n := strings.Split(op, ":")[0]
+			rep.Count("G.op." + gName[n])
+			switch a := at(c.impl, i); {
+			case a == "p":
+				rep.Count("G.panic." + gName[n])
+			case t == 'd' && n == "sS" && a == "u" && quirkSetString32:
+				rep.Count("G.DoubleList.SetString@32")
+			}
+			if at(c.spec, i) == "excluded" {
+				rep.Count("G.excluded")
+			}
+		}
+		model := splitOps(c.dout[0])
+		if d := firstDiff(c.impl, c.spec); d >= 0 {
+			cls := classify(at(c.impl, d), at(c.spec, d))
+			if cls == "out-of-range-not-reported" {
+				cls = "error-not-reported" // bad index or text that is not a number
+			}
+			rep.Fail("property", typeNames[t]+"."+gName[strings.Split(at(ops, d), ":")[0]]+":"+cls,
+				fmt.Sprintf("%s: op #%d %s answers %s, correct rounding (text <-> float, computed with math/big) gives %s", typeNames[t], d, vh.Clip(at(ops, d), 60), vh.Clip(at(c.impl, d), 60), vh.Clip(at(c.spec, d), 60)),
+				replayOf(c, map[string]interface{}{"op_index": d}))
+			return
+		}
+		if d := firstDiff(c.impl, model); d >= 0 {
+			rep.Fail("correspondence", typeNames[t]+"."+gName[strings.Split(at(ops, d), ":")[0]]+":model-disagrees",
+				fmt.Sprintf("op #%d %s: implementation %s, model %s", d, vh.Clip(at(ops, d), 60), vh.Clip(at(c.impl, d), 60), vh.Clip(at(model, d), 60)),
+				replayOf(c, map[string]interface{}{"op_index": d}))
+		}
 	case 'H':
 		ops := splitOps(f[1])
 		rep.Case(c.line, len(ops) > 0)
@@ -598,7 +647,7 @@ func judge(c *kase, rep *vh.Report) {
 		for _, op := range ops {
 			n := strings.Split(op, ":")[0]
 			rep.Count("K.op." + n)
-			if n != "t" && n != "n" && n != "gf" && n != "gl" {
+			if n != "t" && n != "n" && n != "gf" && n != "gl" && n != "ts" && n != "es" {
 				nontrivial = true
 			}
 		}
